@@ -191,7 +191,13 @@ func NewReaderCat(in io.Reader, cat Catalog) Reader {
 		return newBinaryReaderBuf(br, cat)
 	}
 
-	return newTextReaderBuf(br, cat)
+	r := newTextReaderBuf(br, cat)
+	if err != nil && err != io.EOF {
+		// The input failed while its first bytes were being looked at. A bufio.Reader hands a read
+		// error out only once, so it must be remembered here or it is lost for good.
+		r.(*textReader).explode(&IOError{err})
+	}
+	return r
 }
 
 // A reader holds common implementation stuff to both the text and binary readers.
